@@ -243,6 +243,37 @@ def p_same_expr_twice(version):
     return "SAME" if t1 == t2 else "DIFFERENT\n" + t1 + "\n-----\n" + t2
 
 
+def p_same_expr_probe_between(version):
+    """compile, then only QUERY the subroutines (type_of / has_return, or an unrelated router that uses one of
+    them as a bare-call handler), then compile the same expression object again"""
+    @pt.Subroutine(pt.TealType.uint64)
+    def first(a):
+        t = pt.ScratchVar()
+        return pt.Seq(t.store(a), t.load() + pt.Int(1))
+
+    @pt.Subroutine(pt.TealType.none)
+    def second():
+        t = pt.ScratchVar()
+        return pt.Seq(t.store(pt.Int(5)), pt.Pop(t.load()))
+
+    @pt.Subroutine(pt.TealType.uint64)
+    def third(a, b):
+        t = pt.ScratchVar()
+        return pt.Seq(t.store(a + b), t.load())
+    e = pt.Seq(second(), first(pt.Int(1)) + third(pt.Int(2), pt.Int(3)))
+    t1 = pt.compileTeal(e, pt.Mode.Application, version=version)
+    first.type_of()
+    first.has_return()
+    t2 = pt.compileTeal(e, pt.Mode.Application, version=version)
+    r = pt.Router("probe", pt.BareCallActions(no_op=pt.OnCompleteAction.always(second)), clear_state=pt.Approve())
+    r.compile_program(version=max(version, 6))
+    third.type_of()
+    t3 = pt.compileTeal(e, pt.Mode.Application, version=version)
+    if t1 == t2 == t3:
+        return "SAME"
+    return "DIFFERENT after_query=%s after_router=%s\n" % (t1 != t2, t2 != t3) + t1 + "\n-----\n" + t2 + "\n-----\n" + t3
+
+
 def p_router_twice(version):
     r = _router()
     a1 = r.compile_program(version=version)
@@ -324,7 +355,8 @@ def s_abi(version, mid):
 SPLIT_PROBES = {"split_slots": s_slots, "split_subs": s_subs, "split_router": s_router, "split_abi": s_abi}
 
 PROBES = {"abi_main": p_abi_main, "recursive": p_recursive, "router": p_router, "slots": p_slots,
-          "same_expr_twice": p_same_expr_twice, "router_twice": p_router_twice}
+          "same_expr_twice": p_same_expr_twice, "same_expr_probe_between": p_same_expr_probe_between,
+          "router_twice": p_router_twice}
 PROBE_VERSIONS = (6, 8)
 
 
@@ -374,7 +406,7 @@ def run_history(history, full, mid=None):
             except BaseException as e:
                 text = "EXC %s: %s" % (type(e).__name__, str(e)[:300])
             key = "%s@v%d" % (pname, v)
-            if pname in ("same_expr_twice", "router_twice") and not full:
+            if pname in ("same_expr_twice", "same_expr_probe_between", "router_twice") and not full:
                 text = text.split("\n", 1)[0]  # only the verdict line is compared across processes
             out["probes"][key] = text if full else hashlib.sha256(text.encode()).hexdigest()
     return out
